@@ -7,19 +7,7 @@ V = Path(__file__).resolve().parent.parent
 ALL = [f"C{i:02d}" for i in range(1, 21)]
 
 # property -> (technique, level text, level_note, design_ref)
-CLAIMED = {
-    "C11": (
-        "Lean 4 proof over a model of the sweep (all orders, all finite point sets) + verified checker on the implementation's outputs",
-        "Kernel-checked theorems: for every finite list of objective vectors and every argsort order the modelled sweep returns an exact "
-        "Pareto-optimal selection (antichain, cover, subset; identical optimal points once); checkSel is proved equivalent to the "
-        "specification and is run on every output of the real non_dominated_set / pareto_front / pareto_efficient column; the model is "
-        "tied to the code by replaying the observed argsort order and comparing mask, index list and ranked mask exactly.",
-        "Trusted: Lean kernel + standard axioms; the hand-written model (validated by correspondence on exhaustive lattice multisets and "
-        "generated float sets); np.argsort returning a permutation; NumPy indexing glue. Ranked peeling: correspondence + count / "
-        "dominance-closure oracle (theorems for it are being added).",
-        "DESIGN.md section 5 C11",
-    ),
-}
+CLAIMED = {}
 
 # fragments written per property: manifest.d/Cxx.json = {"technique":..,"text":..,"note":..,"design_ref":..}
 # a fragment is only used once the property is listed in ENABLED (checks green on /repo itself)
